@@ -210,9 +210,12 @@ impl Iterator for VmStateIterator {
             }
         }
 
-        // if we are changing iteration directions we must increment the clk counter
-        if !self.forward && self.clk < self.system.clk() {
-            self.clk += 1;
+        // if we are changing iteration directions we must increment the clk counter (unless we
+        // are already at the last clock cycle)
+        if !self.forward {
+            if self.clk < self.system.clk() {
+                self.clk += 1;
+            }
             self.forward = true;
         }
 
